@@ -6796,7 +6796,10 @@ blockSize_explicitDelimiter(const ZSTD_Sequence* inSeqs, size_t inSeqsSize, ZSTD
     assert(spos <= inSeqsSize);
     while (spos < inSeqsSize) {
         end = (inSeqs[spos].offset == 0);
-        blockSize += inSeqs[spos].litLength + inSeqs[spos].matchLength;
+        /* no length can exceed a block : also keeps the sum below from wrapping */
+        RETURN_ERROR_IF(inSeqs[spos].litLength > ZSTD_BLOCKSIZE_MAX || inSeqs[spos].matchLength > ZSTD_BLOCKSIZE_MAX,
+                        externalSequences_invalid, "sequence longer than the maximum block size");
+        blockSize += (size_t)inSeqs[spos].litLength + inSeqs[spos].matchLength;
         if (end) {
             if (inSeqs[spos].matchLength != 0)
                 RETURN_ERROR(externalSequences_invalid, "delimiter format error : both matchlength and offset must be == 0");
